@@ -18,7 +18,7 @@ pkgs=$(grep '^+++ b/' $out/patch.diff | sed 's#^+++ b/##' | xargs -n1 dirname | 
 echo "existing tests of: $pkgs"
 go test -vet=off -count=1 -skip 'SeedDemo|TestSeed' $pkgs > $dst/existing_tests.log 2>&1; rc_tests=$?
 cd /verif
-res=$(scripts/mutate_overlay.sh $dst/patch.diff $cid $cmd $tier 2>&1 | tail -3)
+scripts/mutate_overlay.sh $dst/patch.diff $cid $cmd $tier > $dst/our_check_output.log 2>&1; res=$(tail -3 $dst/our_check_output.log)
 det=MISSED; echo "$res" | grep -q DETECTED && det=DETECTED
 python3 - "$dst" "$cid" "$rc_with" "$rc_without" "$rc_tests" "$det" "$tier" <<'PY'
 import json,sys
